@@ -19,7 +19,7 @@ ID = "C17"
 TECHNIQUE = "runtime monitoring: differential observation of the four constructors against one exact description; malformed-input monitor"
 LEVEL = "exploration"
 RULE = ("random closed curves (polygons int/Fraction/float, uniform-degree Bezier chains of degree 2-3 in float, mixed-degree "
-        "chains, both orientations) built through every applicable constructor, plus malformed inputs: a chain whose end point "
+        "chains, two-segment lenses, both orientations) built through every applicable constructor, the same description object used again after the first curve was moved in place, plus malformed inputs (each offered repeatedly): a chain whose end point "
         "differs from the next start point by >= 1e-6 at a random position (closing one included), non-curve arguments (str, "
         "None, numbers, lists of the wrong things); non-trivial = a description built by >= 2 constructors and compared; "
         "distinct = distinct case specs")
